@@ -65,3 +65,23 @@ def name_refs_flow(ctx):
             if root != 3:
                 bad.append((b, "the compression table passed at `%s` is not the function's own name_refs parameter" % (t["sp"].get("sn") or "")))
     return n, bad
+
+
+def table_insertions(aca):
+    """insertions into the compression table in compress_append, whichever map API is used:
+       [(event, recorded value (Lin or None), key value)]  for `entry(key) .. Vacant(e) => e.insert(v)` and for `map.insert(key, v)`"""
+    out = []
+    ent = [e for e in aca.events if e.get("callee") and e["callee"]["def"].endswith("HashMap::<K, V, S, A>::entry")]
+    for e in aca.events:
+        c = e.get("callee")
+        if not c:
+            continue
+        if c["def"].endswith("VacantEntry::<'a, K, V, A>::insert"):
+            v = e["vals"][1] if len(e["vals"]) > 1 else None
+            key = ent[0]["vals"][1] if len(ent) == 1 and len(ent[0]["vals"]) > 1 else None
+            out.append((e, v[1] if v is not None and v[0] == "lin" else None, key))
+        elif c["def"].endswith("HashMap::<K, V, S, A>::insert"):
+            v = e["vals"][2] if len(e["vals"]) > 2 else None
+            key = e["vals"][1] if len(e["vals"]) > 1 else None
+            out.append((e, v[1] if v is not None and v[0] == "lin" else None, key))
+    return out
